@@ -432,7 +432,7 @@ Lemma halt_fields s : fl (halt s) = fl s /\ expected (halt s) = expected s /\ do
 Proof. cbn. repeat split; reflexivity. Qed.
 
 Lemma verify_complete s s' o :
-  verify_and_reboot map_ userbin verify s = (s', o) ->
+  verify_and_reboot FIXED map_ userbin heap verify s = (s', o) ->
   DInv B s -> downloaded s = expected s -> buf s = [] -> awo s = B + expected s -> bufnull s = false ->
   expected s < 2147483648 ->
   s' = halt s /\
@@ -466,7 +466,7 @@ Proof.
       { rewrite (fread_sub _ B (expected s - SIG_OFF) RSA_BYTES (expected s)) by (unfold SIG_OFF; lia). rewrite D7. reflexivity. }
       rewrite Hbody, Hsig in H.
       destruct (verify (take (expected s - SIG_OFF) (accepted s)) (take RSA_BYTES (drop (expected s - SIG_OFF) (accepted s)))) eqn:Ev;
-        unfold reboot in H.
+        unfold reboot, after_verify in H; cbn [fx_done FIXED snd] in H.
       * assert (s' = halt s /\ o = [OVerify (take (expected s - SIG_OFF) (accepted s)) (take RSA_BYTES (drop (expected s - SIG_OFF) (accepted s))) true;
                                     OFlag FLAG_FINISH; OUpgradeReboot]) as (-> & ->) by (split; congruence).
         split; [reflexivity|]. left. eexists _, _. split; [reflexivity|]. split; [|split; reflexivity].
@@ -484,7 +484,7 @@ Qed.
 
 (* after a failed final write (buffer freed): abandoned again, or the freed buffer is used *)
 Lemma verify_after_fail s s' o :
-  verify_and_reboot map_ userbin verify s = (s', o) -> bufnull s = true ->
+  verify_and_reboot FIXED map_ userbin heap verify s = (s', o) -> bufnull s = true ->
   s' = halt s /\ (o = [OFlag FLAG_IDLE; ORestart] \/ o = [OFault]).
 Proof.
   unfold verify_and_reboot. intros H Hbn. rewrite Hbn in H.
@@ -511,7 +511,7 @@ Proof.
 Qed.
 
 Lemma recv_body_spec s1 content s4 o :
-  recv_body FIXED map_ userbin verify s1 content = (s4, o) ->
+  recv_body FIXED map_ userbin heap verify s1 content = (s4, o) ->
   halted s1 = false -> DInv B s1 -> downloaded s1 < expected s1 -> bytes_ok content -> expected s1 < 2147483648 ->
   started s4 = started s1 /\ rhdr s4 = rhdr s1 /\ matched s4 = matched s1 /\ expected s4 = expected s1 /\ downloading s4 = downloading s1 /\
   outcome (expected s1) s4 o.
@@ -525,7 +525,7 @@ Proof.
   - destruct Hrest as (-> & G1 & G2 & G3 & G4). rewrite app_nil_r in H.
     destruct (downloaded (reset_hlen s2) =? expected (reset_hlen s2)) eqn:Eq.
     + apply Z.eqb_eq in Eq. cbn [reset_hlen downloaded expected] in Eq. destruct (G4 Eq) as [Hb Hawo].
-      destruct (verify_and_reboot map_ userbin verify (reset_hlen s2)) as [s5 o3] eqn:Ev.
+      destruct (verify_and_reboot FIXED map_ userbin heap verify (reset_hlen s2)) as [s5 o3] eqn:Ev.
       assert (s4 = s5 /\ o = ops ++ o3) as (-> & ->) by (split; congruence).
       apply verify_complete in Ev; try (apply DInv_reset; exact G3); cbn [reset_hlen downloaded expected buf awo bufnull]; auto; try lia.
       destruct Ev as [-> Hcases].
@@ -549,7 +549,7 @@ Proof.
       * cbn [reset_hlen downloaded expected]. destruct G3 as (D1 & _). lia.
   - destruct Hrest as (-> & G1 & G2).
     destruct (downloaded (reset_hlen s2) =? expected (reset_hlen s2)) eqn:Eq.
-    + destruct (verify_and_reboot map_ userbin verify (reset_hlen s2)) as [s5 o3] eqn:Ev.
+    + destruct (verify_and_reboot FIXED map_ userbin heap verify (reset_hlen s2)) as [s5 o3] eqn:Ev.
       assert (s4 = s5 /\ o = (ops ++ FAILTAIL) ++ o3) as (-> & ->) by (split; congruence).
       apply verify_after_fail in Ev; [|cbn; exact G2]. destruct Ev as [-> Hc].
       cbn [halt reset_hlen started rhdr matched expected downloading]. repeat split; auto.
@@ -677,7 +677,7 @@ Lemma step_spec s e s1 o :
 Proof.
   pose proof (cf_sec CF) as Hsec. destruct (cf_flags CF) as (Hfi & Hfs & Hsi).
   intros H HI Hh Hev. pose proof HI as (I1 & I2 & I3 & I4).
-  unfold step in H. rewrite Hh in H. destruct e as [|seg|].
+  unfold step in H. cbn [fx_done FIXED andb] in H. rewrite Hh in H. destruct e as [|seg|].
   - (* Start *)
     destruct (started s) eqn:Est.
     + assert (s1 = s /\ o = []) as (-> & ->) by (split; congruence). apply step_post_nil; auto.
@@ -718,7 +718,7 @@ Proof.
         -- (* download starts *)
            cbn [downloading] in H.
            set (s0 := mkst (started s) (halted s) (fl s) (fails s) (awo s) rh 1 (len rh) e 0 true (buf s) (bufnull s) (got s)) in *.
-           destruct (recv_body FIXED map_ userbin verify s0 (drop off seg)) as [s4 ob] eqn:Eb.
+           destruct (recv_body FIXED map_ userbin heap verify s0 (drop off seg)) as [s4 ob] eqn:Eb.
            assert (s1 = s4 /\ o = [OFlag FLAG_START] ++ ob) as (-> & ->) by (split; congruence).
            destruct (parse_header_true _ _ _ Ep) as (l & Hl & Hel).
            pose proof (limit_lt _ Hl) as Hl2.
@@ -746,7 +746,7 @@ Proof.
           split; [intros; discriminate|]. split; [auto|]. split; [intros; repeat split; auto|intros; discriminate]. }
         split; [intros; congruence|]. split; [intros x []|]. split; [left; split; [auto|constructor]|intros []].
     + destruct (downloading s) eqn:Hd.
-      * destruct (recv_body FIXED map_ userbin verify s (drop 0 seg)) as [s4 ob] eqn:Eb.
+      * destruct (recv_body FIXED map_ userbin heap verify s (drop 0 seg)) as [s4 ob] eqn:Eb.
         assert (s1 = s4 /\ o = [] ++ ob) as (-> & ->) by (split; congruence).
         destruct (I1 eq_refl) as (_ & Hm1 & l & Hl & Hel & Hp).
         destruct (I4 eq_refl Hh eq_refl) as [HD Hlt].
@@ -774,7 +774,7 @@ Qed.
 Lemma run_halted evs : forall s, halted s = true -> run_from FIXED map_ userbin heap verify s evs = (s, []).
 Proof.
   induction evs as [|e t IH]; intros s Hh; cbn [run_from]; [reflexivity|].
-  unfold step. rewrite Hh. rewrite IH by auto. reflexivity.
+  unfold step. cbn [fx_done FIXED andb]. rewrite Hh. rewrite IH by auto. reflexivity.
 Qed.
 
 Lemma step_post_trans s s1 s2 o1 o2 :
@@ -905,7 +905,7 @@ Proof.
   split. { intros Hh. destruct A4 as [[_ X]|[X _]]; [auto|congruence]. }
   split. { intros Hh. destruct A4 as [[X _]|[_ X]]; [congruence|auto]. }
   split.
-  { intros Hh Hst. unfold step. rewrite Hh, Hst. unfold disconnect. cbn [fx_disc FIXED andb].
+  { intros Hh Hst. unfold step. cbn [fx_done FIXED andb]. rewrite Hh, Hst. unfold disconnect. cbn [fx_disc FIXED andb].
     assert (negb (downloading s') || negb (downloaded s' =? expected s') = true) as Hc.
     { destruct (downloading s') eqn:Hd; [|reflexivity]. destruct (I4 Hst Hh eq_refl) as [_ Hlt].
       cbn [negb orb]. apply negb_true_iff. apply Z.eqb_neq. lia. }
@@ -986,7 +986,7 @@ Proof.
 Qed.
 
 Lemma recv_body_accepted s1 content s4 o :
-  recv_body FIXED map_ userbin verify s1 content = (s4, o) ->
+  recv_body FIXED map_ userbin heap verify s1 content = (s4, o) ->
   DInv B s1 -> downloaded s1 < expected s1 -> bytes_ok content ->
   (halted s4 = false \/ downloaded s4 = expected s4) -> halted s1 = false ->
   accepted s4 = accepted s1 ++ take (Z.max 0 (expected s1 - downloaded s1)) content /\ len (accepted s4) = downloaded s4.
@@ -998,10 +998,10 @@ Proof.
           /\ halted (reset_hlen s2) = halted s2) as (R1 & R2 & R3 & R4) by (cbn; auto).
   assert (accepted s4 = accepted s2 /\ downloaded s4 = downloaded s2 /\ expected s4 = expected s2 /\ (halted s4 = false -> halted s2 = false)) as (A1 & A2 & A3 & A4).
   { destruct (downloaded (reset_hlen s2) =? expected (reset_hlen s2)).
-    - destruct (verify_and_reboot map_ userbin verify (reset_hlen s2)) as [s5 o3] eqn:Ev.
+    - destruct (verify_and_reboot FIXED map_ userbin heap verify (reset_hlen s2)) as [s5 o3] eqn:Ev.
       assert (s4 = s5) as -> by congruence.
       assert (s5 = halt (reset_hlen s2)) as ->.
-      { revert Ev. unfold verify_and_reboot. destruct (footer_ok _); [destruct (bufnull _)|]; unfold reboot; intros X; congruence. }
+      { revert Ev. unfold verify_and_reboot, after_verify. cbn [fx_done FIXED]. destruct (footer_ok _); [destruct (bufnull _)|]; unfold reboot; intros X; congruence. }
       cbn. repeat split; auto. intros; discriminate.
     - assert (s4 = reset_hlen s2) as -> by congruence. cbn. repeat split; auto. }
   rewrite A1, A2. apply (download_accepted _ _ _ _ _ Ed); auto.
@@ -1044,7 +1044,7 @@ Lemma seg_step_SR s b s1 o c :
   SR s1 (c ++ (if eff b then b else [])).
 Proof.
   intros H HI Hst (S1 & S2) Hb. pose proof HI as (I1 & I2 & I3 & I4).
-  unfold step in H. destruct (halted s) eqn:Hh.
+  unfold step in H. cbn [fx_done FIXED andb] in H. destruct (halted s) eqn:Hh.
   - (* already decided *)
     assert (s1 = s) as -> by congruence. split; [intros; congruence|].
     intros Hd [X|He]; [congruence|]. destruct (S2 Hd (or_intror He)) as (body & -> & Ha & Hl).
@@ -1073,7 +1073,7 @@ Proof.
         destruct (parse_header FIXED map_ heap (rev rh) 0) as [e dl] eqn:Ep. destruct dl.
         -- cbn [downloading] in H.
            set (s0 := mkst (started s) (halted s) (fl s) (fails s) (awo s) rh 1 (len rh) e 0 true (buf s) (bufnull s) (got s)) in *.
-           destruct (recv_body FIXED map_ userbin verify s0 (drop off b)) as [s4 ob] eqn:Eb.
+           destruct (recv_body FIXED map_ userbin heap verify s0 (drop off b)) as [s4 ob] eqn:Eb.
            assert (s1 = s4) as -> by congruence.
            destruct (parse_header_true _ _ _ Ep) as (l & Hl & Hel).
            pose proof (limit_lt _ Hl) as Hl2.
@@ -1099,7 +1099,7 @@ Proof.
         unfold SR. cbn [halted matched downloading rhdr]. split; [|intros; discriminate].
         intros _ X. rewrite Q2, (Q3 X). rewrite Z.add_0_l. rewrite take_all by lia. reflexivity.
     + apply Z.eqb_neq in Em. destruct (downloading s) eqn:Hd.
-      * destruct (recv_body FIXED map_ userbin verify s (drop 0 b)) as [s4 ob] eqn:Eb.
+      * destruct (recv_body FIXED map_ userbin heap verify s (drop 0 b)) as [s4 ob] eqn:Eb.
         assert (s1 = s4) as -> by congruence. rewrite drop_0 in Eb.
         destruct (I1 eq_refl) as (_ & Hm1 & l & Hl & Hel & Hp).
         destruct (I4 Hst eq_refl eq_refl) as [HD Hlt].
@@ -1140,9 +1140,9 @@ Proof.
   destruct (_ && _); [|intros X; congruence].
   destruct (flash_write sl) as [[sw ow] okw] eqn:Ew. apply flash_write_started in Ew. intros X; congruence.
 Qed.
-Lemma verify_started s s' o : verify_and_reboot map_ userbin verify s = (s', o) -> started s' = started s.
+Lemma verify_started s s' o : verify_and_reboot FIXED map_ userbin heap verify s = (s', o) -> started s' = started s.
 Proof.
-  unfold verify_and_reboot. destruct (footer_ok _); [destruct (bufnull _)|]; unfold reboot.
+  unfold verify_and_reboot, after_verify. cbn [fx_done FIXED]. destruct (footer_ok _); [destruct (bufnull _)|]; unfold reboot.
   - intros X. assert (s' = halt s) as -> by congruence. reflexivity.
   - destruct (verify _ _); intros X; assert (s' = halt s) as -> by congruence; reflexivity.
   - intros X. assert (s' = halt s) as -> by congruence. reflexivity.
@@ -1178,9 +1178,9 @@ Proof.
     pose proof (seg_step_SR _ _ _ _ _ Es HI Hst HS Hb1) as HS1.
     assert (Inv s1 /\ started s1 = true) as [HI1 Hst1].
     { destruct (halted s) eqn:Hh.
-      - unfold step in Es. rewrite Hh in Es. assert (s1 = s) as -> by congruence. auto.
+      - unfold step in Es. cbn [fx_done FIXED andb] in Es. rewrite Hh in Es. assert (s1 = s) as -> by congruence. auto.
       - pose proof (step_spec _ _ _ _ Es HI Hh Hb1) as (XI & _). split; [auto|].
-        unfold step in Es. rewrite Hh, Hst in Es. apply recv_started in Es. congruence. }
+        unfold step in Es. cbn [fx_done FIXED andb] in Es. rewrite Hh, Hst in Es. apply recv_started in Es. congruence. }
     specialize (IH _ _ _ _ Er HI1 Hst1 HS1 Hb2).
     unfold stream_of in *. cbn [map concat]. rewrite app_assoc. exact IH.
 Qed.
@@ -1189,7 +1189,7 @@ Lemma run_segs_not_started : forall segs s, started s = false ->
   run_from FIXED map_ userbin heap verify s (map Seg segs) = (s, []).
 Proof.
   induction segs as [|b t IH]; intros s Hs; cbn [map run_from]; [reflexivity|].
-  unfold step. destruct (halted s); rewrite ?Hs; rewrite IH by auto; reflexivity.
+  unfold step. cbn [fx_done FIXED andb]. destruct (halted s); rewrite ?Hs; rewrite IH by auto; reflexivity.
 Qed.
 
 Theorem C18_image_is_stream_prefix_thm : forall f fs segs s' outs,
@@ -1203,7 +1203,7 @@ Proof.
   destruct (run_from FIXED map_ userbin heap verify s0 (map Seg segs)) as [s2 o2] eqn:Er.
   assert (s' = s2) as -> by congruence.
   pose proof (step_spec _ _ _ _ Es (Inv_init f fs) eq_refl I) as (HI0 & _).
-  unfold step in Es. cbn [init halted started] in Es. unfold start in Es.
+  unfold step in Es. cbn [fx_done FIXED andb init halted started] in Es. unfold start in Es.
   destruct (slot_base map_ userbin) as [b|] eqn:Esl.
   - assert (s0 = mkst true false f fs b [] 0 0 0 0 false [] false []) as -> by (cbn [init fl fails] in Es; congruence).
     assert (SR (mkst true false f fs b [] 0 0 0 0 false [] false []) []) as HS0.
@@ -1250,11 +1250,12 @@ Definition w_header (clen : string) : list Z :=
 Definition w_image : list Z :=          (* 5000 bytes: body, 512-byte signature, footer *)
   repeat 1 (Z.to_nat 4472) ++ repeat 2 (Z.to_nat 512) ++ FOOTER_MAGIC ++ [2; 0] ++ zeros 8.
 Definition accept_all (b sg : list Z) : bool := true.
-Definition OLD_CLAMP := {| fx_clamp := false; fx_offset := true; fx_disc := true; fx_clen := true |}.
-Definition OLD_OFFSET := {| fx_clamp := true; fx_offset := false; fx_disc := true; fx_clen := true |}.
-Definition OLD_DISC := {| fx_clamp := true; fx_offset := true; fx_disc := false; fx_clen := true |}.
-Definition OLD_CLEN := {| fx_clamp := true; fx_offset := true; fx_disc := true; fx_clen := false |}.
-Definition OLD_ALL := {| fx_clamp := false; fx_offset := false; fx_disc := false; fx_clen := false |}.   (* the code before all repairs *)
+Definition OLD_CLAMP := {| fx_clamp := false; fx_offset := true; fx_disc := true; fx_clen := true; fx_done := true |}.
+Definition OLD_OFFSET := {| fx_clamp := true; fx_offset := false; fx_disc := true; fx_clen := true; fx_done := true |}.
+Definition OLD_DISC := {| fx_clamp := true; fx_offset := true; fx_disc := false; fx_clen := true; fx_done := true |}.
+Definition OLD_CLEN := {| fx_clamp := true; fx_offset := true; fx_disc := true; fx_clen := false; fx_done := true |}.
+Definition OLD_DONE := {| fx_clamp := true; fx_offset := true; fx_disc := true; fx_clen := true; fx_done := false |}.
+Definition OLD_ALL := {| fx_clamp := false; fx_offset := false; fx_disc := false; fx_clen := false; fx_done := false |}.   (* the code before all repairs *)
 Definition w_run (fx : fixes) (evs : list event) := run_from fx 5 0 [] accept_all (init flash0 []) evs.
 Definition has (p : out -> bool) (r : st * list out) : bool := existsb p (snd r).
 Definition erase_at (a : Z) (o : out) : bool := match o with OErase a' => a' =? a | _ => false end.
@@ -1269,6 +1270,9 @@ Definition w_split : list event :=
   [Start; Seg (firstn 60 (w_header "5000")); Seg (skipn 60 (w_header "5000") ++ firstn 20 w_image); Seg (skipn 20 w_image)].
 (* 3000 of 5000 bytes, then the server closes *)
 Definition w_short : list event := [Start; Seg (w_header "5000" ++ firstn 3000 w_image); Disc].
+(* a valid 20000-byte image, then one more segment before the requested reboot takes effect *)
+Definition w_image2 : list Z := repeat 1 (Z.to_nat 19472) ++ repeat 2 (Z.to_nat 512) ++ FOOTER_MAGIC ++ [2; 0] ++ zeros 8.
+Definition w_extra : list event := [Start; Seg (w_header "20000" ++ w_image2); Seg (repeat 7 (Z.to_nat 100))].
 (* Content-Length 2^32 + 5000 and a valid 5000-byte image *)
 Definition w_wrap : list event := [Start; Seg (w_header "4294972296" ++ w_image); Disc].
 
@@ -1287,7 +1291,13 @@ Theorem C18_old_code_refuted_thm :
   has is_restart (w_run FIXED w_short) = true /\
   (* 4: the announced length wraps to 5000 and the image is marked for boot *)
   expected (fst (w_run OLD_CLEN w_wrap)) = 5000 /\ has is_finish (w_run OLD_CLEN w_wrap) = true /\
-  has is_finish (w_run FIXED w_wrap) = false /\ has is_restart (w_run FIXED w_wrap) = true.
+  has is_finish (w_run FIXED w_wrap) = false /\ has is_restart (w_run FIXED w_wrap) = true /\
+  (* 5: a segment delivered after FINISH + upgrade reboot request: the sector holding the signature is erased and 3088 bytes
+        are written from base+19472 on, i.e. past the announced 20000 bytes, then the update is cancelled (restart) *)
+  has is_finish (w_run OLD_DONE w_extra) = true /\ has (write_from (1052672 + 19472)) (w_run OLD_DONE w_extra) = true /\
+  has is_restart (w_run OLD_DONE w_extra) = true /\
+  has is_finish (w_run FIXED w_extra) = true /\ has (write_from (1052672 + 19472)) (w_run FIXED w_extra) = false /\
+  has is_restart (w_run FIXED w_extra) = false.
 Proof. vm_compute. repeat split; reflexivity. Qed.
 
 (* non-vacuity: a valid image in three segments (header cut inside "Content-Length") is flashed, verified over exactly
